@@ -6,7 +6,7 @@
    Everything holds for EVERY read script, write script and gating, and for every max_conns. *)
 From Coq Require Import ZArith.
 From FV Require Import Base.Bytes Base.BytesLemmas Gen.Generated Codec.Varint Codec.NV Codec.Header Codec.Bodies Codec.Vars
-  Codec.ProtoProofs Parser.ReqModel Parser.ReqWire Parser.StreamModel Parser.AbsStream Parser.ReqDrive Parser.StreamRefine
+  Codec.ProtoProofs Parser.ReqModel Parser.ReqWire Parser.ReqRecords Parser.StreamModel Parser.AbsStream Parser.ReqDrive Parser.StreamRefine
   Parser.StreamSpec Parser.StreamInv Parser.EnvCanon Async.ConnWrites Async.ConnTotal Async.Conn.
 From Coq Require Import ZifyBool ZifyNat ZifyN.
 Ltac Zify.zify_post_hook ::= Z.div_mod_to_equations.
@@ -189,6 +189,135 @@ Proof. split; intros H; exact H. Qed.
 
 Lemma err_at_set_out a o e : err_at (set_out a o) e <-> err_at a e.
 Proof. split; intros H; exact H. Qed.
+
+(* ------------------------------------------------------------------------------------------ *)
+(* Part 1b: where Parser::parse stops (for C08): with nothing more to do on the bytes it has    *)
+(* ------------------------------------------------------------------------------------------ *)
+Section Quiet.
+Variable maxc : N.
+
+(* the unparsed bytes admit no further step: none left, a payload (or GetValues pair) still incomplete,
+   or an incomplete header *)
+Definition stuck (a : ast) : Prop :=
+  a_raw a = [] \/ (0 < a_prem a /\ len (a_raw a) < a_prem a) \/
+  (a_prem a = 0 /\ a_pad a = 0 /\ len (a_raw a) < HEADER_LEN).
+
+(* why the loop of Parser::parse ended: stuck, end of stream reported, or the caller's buffer is full *)
+Definition brk (l : alstate) : Prop := stuck (al l) \/ s_end (ares l) = true \/ acap l = Some 0.
+Definition brk_flow (fl : aflow) : Prop := match fl with ABreak l => brk l | _ => True end.
+
+Lemma pfin_brk a parsed' out' st' res cap' consumed : 0 < a_prem a ->
+  (consumed = N.min (a_prem a) (len (a_raw a)) \/ cap' = Some 0 \/
+   (len (a_raw a) < a_prem a /\ exists k, k <= len (a_raw a) /\ consumed = len (a_raw a) - k)) ->
+  brk_flow (pfin' a parsed' out' st' res cap' consumed).
+Proof.
+  intros Hp Hc. unfold pfin'. cbv zeta.
+  destruct (N.min (a_prem a) (len (a_raw a)) <? consumed); [exact I|].
+  cbn [a_prem].
+  destruct ((a_prem a - consumed =? 0) && (consumed <? len (a_raw a))) eqn:Eb; [exact I|].
+  cbn [brk_flow]. unfold brk, stuck. cbn [al ares acap a_raw a_prem a_pad].
+  destruct Hc as [Hc|[Hc|(Hl & k & Hk & Hc)]].
+  - left. destruct (N.le_gt_cases (a_prem a) (len (a_raw a))) as [Hle|Hgt].
+    + rewrite N.min_l in Hc by exact Hle. subst consumed. rewrite N.sub_diag in Eb.
+      change (0 =? 0) with true in Eb. cbn [andb] in Eb.
+      destruct (N.ltb_spec (a_prem a) (len (a_raw a))) as [|Hge]; [discriminate Eb|].
+      left. apply drop_all. lia.
+    + rewrite N.min_r in Hc by lia. subst consumed. left. apply drop_all. lia.
+  - right. right. exact Hc.
+  - left. right. left. subst consumed. rewrite len_drop. lia.
+Qed.
+
+Lemma payload_brk l : 0 < a_prem (al l) -> brk_flow (aparse_payload maxc l).
+Proof.
+  intros Hp. rewrite aparse_payload_eq. cbv zeta.
+  destruct (a_st (al l)) as [| |vars].
+  - destruct (acap l) as [c|].
+    + apply pfin_brk; [exact Hp|].
+      destruct (N.le_gt_cases (N.min (a_prem (al l)) (len (a_raw (al l)))) c) as [Hle|Hgt].
+      * left. lia.
+      * right. left. f_equal. lia.
+    + apply pfin_brk; [exact Hp|left; reflexivity].
+  - apply pfin_brk; [exact Hp|left; reflexivity].
+  - destruct (nv_run (take (N.min (a_prem (al l)) (len (a_raw (al l)))) (a_raw (al l)))) as [ps rest] eqn:En.
+    pose proof (nv_run_rest_len (take (N.min (a_prem (al l)) (len (a_raw (al l)))) (a_raw (al l)))) as Hr.
+    rewrite En in Hr. cbn [snd] in Hr. rewrite len_take in Hr.
+    destruct (N.ltb_spec (len (a_raw (al l))) (a_prem (al l))) as [Hlt|Hge].
+    + apply pfin_brk; [exact Hp|]. right. right. split; [exact Hlt|]. exists (len rest). split; [lia|].
+      rewrite N.min_r by lia. reflexivity.
+    + apply pfin_brk; [exact Hp|left; reflexivity].
+Qed.
+
+Lemma head_brk l : brk_flow (aparse_head l).
+Proof.
+  rewrite aparse_head_eq. cbv zeta. unfold a_boundary.
+  destruct (N.eqb_spec (a_prem (al l)) 0) as [H1|H1]; cbn [andb negb]; [|exact I].
+  destruct (N.eqb_spec (a_pad (al l)) 0) as [H2|H2]; cbn [negb]; [|exact I].
+  destruct (N.ltb_spec (len (a_raw (al l))) HEADER_LEN) as [Hl|Hl].
+  { cbn [brk_flow]. left. right. right. repeat split; assumption. }
+  assert (SE : brk (mkAL (al l) (set_end (ares l)) (acap l))) by (right; left; reflexivity).
+  destruct (hdr_decode (take HEADER_LEN (a_raw (al l)))) as [t id cl pl|v|t]; try exact I.
+  destruct (is_input_stream t && (id =? r_id (a_req (al l)))).
+  - destruct (cmp_input_streams (r_role (a_req (al l))) t (a_stream (al l))) as [[| |]|]; try exact I; try exact SE.
+    destruct (negb (cl =? 0)); [exact I|exact SE].
+  - destruct ((t =? RT_AbortRequest) && (id =? r_id (a_req (al l)))); [exact I|].
+    destruct ((t =? RT_BeginRequest) && negb (id =? r_id (a_req (al l)))); [exact I|].
+    destruct ((t =? RT_GetValues) && hdr_is_management t id); exact I.
+Qed.
+
+Lemma after_payload_brk l : brk_flow (after_payload l).
+Proof.
+  unfold after_payload. cbv zeta. destruct (0 <? a_pad (al l)); [|apply head_brk].
+  destruct (negb (a_prem (al l) =? 0)); [exact I|].
+  destruct (len (a_raw (al l)) <=? a_pad (al l)); [|apply head_brk].
+  cbn [brk_flow]. left. left. reflexivity.
+Qed.
+
+Lemma iter_brk l : brk_flow (aparse_iter maxc l).
+Proof.
+  rewrite aparse_iter_eq. destruct (N.ltb_spec 0 (a_prem (al l))) as [Hp|Hp]; [|apply after_payload_brk].
+  pose proof (payload_brk l Hp) as H. destruct (aparse_payload maxc l) as [l'|l'|l' e|n]; try exact H; try exact I.
+  apply after_payload_brk.
+Qed.
+
+Lemma loop_brk fuel : forall l, brk_flow (aparse_loop maxc fuel l).
+Proof.
+  induction fuel as [|f IH]; intros l; [exact I|]. cbn [aparse_loop].
+  destruct (a_raw (al l)) as [|x t] eqn:Er; [cbn [brk_flow]; left; left; exact Er|].
+  pose proof (iter_brk l) as H. destruct (aparse_iter maxc l) as [l'|l'|l' e|n]; try exact H; try exact I.
+  apply IH.
+Qed.
+
+Lemma stuck_quiet a : stuck a -> RA maxc (ri a) (a_st a) (a_prem a) (a_pad a) (a_raw a) = [].
+Proof.
+  intros [H|[[H1 H2]|(H1 & H2 & H3)]].
+  - rewrite H. apply RA_nil.
+  - rewrite RA_prem by exact H1. destruct (N.ltb_spec (len (a_raw a)) (a_prem a)); [reflexivity|lia].
+  - rewrite H1, H2. apply RA_short. exact H3.
+Qed.
+
+(* a call that reports neither stream data nor the end of the stream has done everything that can be done with the
+   bytes received so far: beyond its pending output, no reply is owed until the client sends more *)
+Theorem aparse_quiet a new dest a' s : a_inv a -> legal a new dest -> dest <> Some 0 ->
+  aparse maxc a new dest = AOk a' s -> s_end s = false -> s_stream s = 0 ->
+  forall o, R maxc (set_out a' o) [] = o.
+Proof.
+  intros Hinv Hleg Hd E Hend Hstr o. rewrite (aparse_eq maxc a new dest Hleg) in E.
+  pose proof (loop_ok maxc _ _ (linv_l0 a new dest Hinv Hleg) (fuel_l0 a new dest Hinv Hleg)) as LO.
+  pose proof (loop_brk (2 * N.to_nat (a_B a) + 8) (l0 a new dest)) as LB.
+  destruct (aparse_loop maxc (2 * N.to_nat (a_B a) + 8) (l0 a new dest)) as [l'|l'|l' e|n];
+    cbn [loop_post brk_flow] in LO, LB; try contradiction; try discriminate E.
+  assert (Ea : al l' = a') by congruence. assert (Es : ares l' = s) by congruence. subst a' s.
+  rewrite R_eq, app_nil_r. cbn [set_out a_out a_st a_prem a_pad a_raw]. unfold ri. cbn [set_out a_req].
+  destruct LB as [St|[Se|Sc]].
+  - change (r_id (a_req (al l'))) with (ri (al l')). rewrite (stuck_quiet _ St). apply app_nil_r.
+  - rewrite Se in Hend. discriminate Hend.
+  - exfalso. destruct LO as (P & _). pose proof (p_cap _ _ _ P) as Hc. unfold cap_rel in Hc.
+    cbn [l0 acap ares res0 s_stream] in Hc. destruct dest as [c|].
+    + destruct Hc as (d & c' & C1 & _ & _ & C4 & C5). rewrite Sc in C1. injection C1 as <-.
+      apply Hd. f_equal. lia.
+    + destruct Hc as (C1 & _). rewrite Sc in C1. discriminate C1.
+Qed.
+End Quiet.
 
 Section Reads.
 Variable maxc : N.
